@@ -158,6 +158,10 @@ class ArbitraryError(ValueError):
     pass
 
 
+class FatalBaseError(BaseException):
+    pass
+
+
 async def play(rec: Recorder, call: dict[str, Any], atom: Any, kw: dict[str, Any]) -> Any:
     """Interpret one atom inside a handler. Returns the result or raises the scripted error."""
     import kopf
@@ -179,6 +183,8 @@ async def play(rec: Recorder, call: dict[str, Any], atom: Any, kw: dict[str, Any
             raise kopf.PermanentError(f"scripted permanent #{call['seq']}")
         elif op == 'arb':
             raise ArbitraryError(f"scripted arbitrary #{call['seq']}")
+        elif op == 'fatal':
+            raise FatalBaseError(f"scripted fatal #{call['seq']}")     # not an Exception: nothing in the framework may swallow it
         else:
             raise RuntimeError(f"unknown atom {atom!r}")
 
